@@ -10,6 +10,7 @@ package repository
 // goroutine is blocked (at a gate, on the in-progress channel of the cache backend, or finished).
 
 import (
+	"bufio"
 	"bytes"
 	"context"
 	"encoding/json"
@@ -24,6 +25,7 @@ import (
 	"testing"
 	"testing/synctest"
 
+	"github.com/klauspost/compress/zstd"
 	"github.com/restic/restic/internal/backend"
 	"github.com/restic/restic/internal/backend/cache"
 	"github.com/restic/restic/internal/backend/mem"
@@ -35,7 +37,8 @@ import (
 // ------------------------------------------------------------------ gated inner backend
 
 type v38Call struct {
-	cmd chan string
+	cmd    chan string
+	toPost bool // run to the end without stopping half way, stop once more after the consumer got the last byte
 }
 
 type v38Gate struct {
@@ -44,6 +47,22 @@ type v38Gate struct {
 	gated   map[string]bool
 	waiting []*v38Call
 	loads   int
+	// failNext[name] > 0: the next download of that file fails once with a transient error ("berr" step)
+	failNext map[string]int
+	fired    int
+}
+
+// injected reports (and consumes) a pending one-shot download failure for the file.
+func (g *v38Gate) injected(h backend.Handle) bool {
+	g.mu.Lock()
+	defer g.mu.Unlock()
+	if g.failNext[h.Name] > 0 {
+		g.failNext[h.Name]--
+		g.fired++
+		g.loads++
+		return true
+	}
+	return false
 }
 
 func (g *v38Gate) isGated(h backend.Handle) bool {
@@ -72,8 +91,13 @@ func (g *v38Gate) leave(c *v38Call) {
 
 var errV38Inject = errors.New("verif: download failed")
 
-// Load stops a gated download before the first byte and after half of the bytes.
+// Load stops a gated download before the first byte and after half of the bytes; the command "gopost" lets it run
+// to the end and stops it a last time after the consumer has returned (for a download into the cache: the file is
+// stored under its final name, the call has not returned yet).
 func (g *v38Gate) Load(ctx context.Context, h backend.Handle, length int, offset int64, fn func(rd io.Reader) error) error {
+	if g.injected(h) {
+		return errV38Inject
+	}
 	if !g.isGated(h) {
 		g.mu.Lock()
 		g.loads++
@@ -83,16 +107,24 @@ func (g *v38Gate) Load(ctx context.Context, h backend.Handle, length int, offset
 	c := &v38Call{cmd: make(chan string)}
 	g.enter(c)
 	defer g.leave(c)
-	if <-c.cmd == "fail" {
+	cmd := <-c.cmd
+	if cmd == "fail" {
 		return errV38Inject
 	}
-	return g.Backend.Load(ctx, h, length, offset, func(rd io.Reader) error {
+	c.toPost = cmd == "gopost"
+	err := g.Backend.Load(ctx, h, length, offset, func(rd io.Reader) error {
 		buf, err := io.ReadAll(rd)
 		if err != nil {
 			return err
 		}
 		return fn(&v38Reader{buf: buf, half: len(buf) / 2, call: c})
 	})
+	if err == nil && c.toPost {
+		if <-c.cmd == "fail" {
+			return errV38Inject
+		}
+	}
+	return err
 }
 
 func (g *v38Gate) Unwrap() backend.Backend { return g.Backend }
@@ -108,8 +140,12 @@ type v38Reader struct {
 func (r *v38Reader) Read(p []byte) (int, error) {
 	if !r.passed && r.pos >= r.half {
 		r.passed = true
-		if <-r.call.cmd == "fail" {
-			return 0, errV38Inject
+		if !r.call.toPost {
+			cmd := <-r.call.cmd
+			if cmd == "fail" {
+				return 0, errV38Inject
+			}
+			r.call.toPost = cmd == "gopost"
 		}
 	}
 	if r.pos >= len(r.buf) {
@@ -147,6 +183,8 @@ type v38Fix struct {
 	targets map[string]*v38Target
 	tmp     string
 	n       int
+	bufRd   *bufio.Reader
+	dec     *zstd.Decoder
 }
 
 func (f *v38Fix) handle(tg *v38Target, meta bool) backend.Handle {
@@ -163,7 +201,7 @@ func v38NewFix(t *testing.T) *v38Fix {
 	ctx := context.Background()
 	f := &v38Fix{t: t, targets: map[string]*v38Target{}}
 	f.memBE = mem.New()
-	f.gate = &v38Gate{Backend: f.memBE, gated: map[string]bool{}}
+	f.gate = &v38Gate{Backend: f.memBE, gated: map[string]bool{}, failNext: map[string]int{}}
 	repo, _ := TestRepositoryWithBackend(t, f.gate, 2, Options{})
 	f.rA = repo
 	bplain := map[restic.ID][]byte{}
@@ -258,11 +296,22 @@ func v38NewFix(t *testing.T) *v38Fix {
 	// allocate the shared zstd decoders now (not inside a loader)
 	_, _ = f.rA.LoadUnpacked(ctx, restic.SnapshotFile, snID)
 	_, _ = f.rB.LoadUnpacked(ctx, restic.SnapshotFile, snID)
-	tmp, err := os.MkdirTemp("", "verif-c38-")
+	tmpRoot := ""
+	if fi, err := os.Stat("/dev/shm"); err == nil && fi.IsDir() {
+		tmpRoot = "/dev/shm" // memory file system: the scenarios create and delete thousands of small cache directories
+	}
+	tmp, err := os.MkdirTemp(tmpRoot, "verif-c38-")
+	if err != nil {
+		tmp, err = os.MkdirTemp("", "verif-c38-")
+	}
 	if err != nil {
 		t.Fatal(err)
 	}
 	f.tmp = tmp
+	f.bufRd = bufio.NewReaderSize(nil, maxStreamBufferSize)
+	if f.dec, err = zstd.NewReader(nil); err != nil {
+		t.Fatal(err)
+	}
 	return f
 }
 
@@ -281,15 +330,31 @@ func (f *v38Fix) attach(r *Repository, base string) *cache.Cache {
 	return c
 }
 
-// cachedPath finds the cached copy of the target by name (layout-agnostic).
+// cachedPath finds the cached copy of the target by name (layout-agnostic: the place below the cache base is
+// learnt by walking the directory the first time a copy is found, afterwards that place is looked at directly).
+var v38Rel sync.Map // file name -> path relative to the cache base
+
 func v38CachedPath(base string, tg *v38Target) string {
+	name := tg.id.String()
+	if rel, ok := v38Rel.Load(name); ok {
+		p := filepath.Join(base, rel.(string))
+		if fi, err := os.Lstat(p); err == nil && fi.Mode().IsRegular() {
+			return p
+		}
+		return ""
+	}
 	found := ""
 	_ = filepath.Walk(base, func(p string, fi os.FileInfo, err error) error {
-		if err == nil && fi.Mode().IsRegular() && fi.Name() == tg.id.String() {
+		if err == nil && fi.Mode().IsRegular() && fi.Name() == name {
 			found = p
 		}
 		return nil
 	})
+	if found != "" {
+		if rel, err := filepath.Rel(base, found); err == nil {
+			v38Rel.Store(name, rel)
+		}
+	}
 	return found
 }
 
@@ -417,6 +482,13 @@ func (f *v38Fix) doOp(r *Repository, tg *v38Target, op string, salt int) (out st
 			}
 		}
 		return cls(err, same)
+	case "CheckPack":
+		// the routine behind `check --read-data`: reads the whole pack (through the cache when it holds a copy)
+		// and verifies pack hash, every blob and the header; nil = "this pack is intact", which is what the
+		// repository's bytes deserve
+		blobs := append(pack.Blobs{}, tg.blobs...)
+		err := checkPack(ctx, r, tg.id, blobs, int64(len(tg.raw)), f.bufRd, f.dec)
+		return cls(err, true)
 	case "RawRange":
 		off, ln := v38Range(tg, salt)
 		var buf []byte
@@ -494,6 +566,7 @@ type v38Step struct {
 	Out     string `json:"out"`
 	Cache   string `json:"cache"`
 	Applied bool   `json:"applied"`
+	BFault  bool   `json:"bfault"`
 	Detail  string `json:"detail"`
 }
 
@@ -541,14 +614,35 @@ func (f *v38Fix) runScript(sc v38Scen) v38Rec {
 		Schedule: []string{}, Loaders: []v38Loader{}, Init: "absent", Final: "na"}
 	f.gate.mu.Lock()
 	f.gate.loads = 0
+	delete(f.gate.failNext, tg.id.String())
 	f.gate.mu.Unlock()
+	defer func() {
+		f.gate.mu.Lock()
+		delete(f.gate.failNext, tg.id.String())
+		f.gate.mu.Unlock()
+	}()
 	a, b := v38Region(tg, sc.Op, sc.Idx)
 	for i, st := range sc.Script {
 		res := v38Step{Out: "na"}
 		salt := v38Hash(kit.Seed(), sc.Idx, i)
+		f.gate.mu.Lock()
+		fired0 := f.gate.fired
+		f.gate.mu.Unlock()
 		switch st {
 		case "load":
 			res.Out, res.Detail = f.doOp(f.rA, tg, sc.Op, sc.Idx)
+		case "berr":
+			f.gate.mu.Lock()
+			f.gate.failNext[tg.id.String()] = 1
+			f.gate.mu.Unlock()
+		case "warm":
+			// another restic process: fresh Cache object (and cache backend) on the same directory
+			f.attach(f.rB, base)
+			wop := "LoadRaw"
+			if tg.bt == backend.PackFile {
+				wop = "LoadBlob"
+			}
+			res.Out, res.Detail = f.doOp(f.rB, tg, wop, sc.Idx)
 		case "flip":
 			if p := v38CachedPath(base, tg); p != "" {
 				res.Applied = v38Flip(p, a, b, salt)
@@ -569,6 +663,9 @@ func (f *v38Fix) runScript(sc v38Scen) v38Rec {
 			_ = f.rA.be.List(ctx, tg.bt, func(backend.FileInfo) error { return nil })
 		}
 		res.Cache = v38CacheState(base, tg)
+		f.gate.mu.Lock()
+		res.BFault = f.gate.fired != fired0
+		f.gate.mu.Unlock()
 		rec.Res = append(rec.Res, res)
 	}
 	f.gate.mu.Lock()
@@ -592,6 +689,8 @@ func (f *v38Fix) runConc(sc v38Scen, res *kit.Result) v38Rec {
 	op := f.concOp(sc.FType)
 	rec := v38Rec{Idx: sc.Idx, Kind: "conc", FType: sc.FType, Op: op, Script: []string{}, Res: []v38Step{},
 		Init: sc.Init, Schedule: sc.Schedule, Loaders: []v38Loader{}}
+	// the raw reader asks for the whole file or for one of several byte ranges
+	rsalt := v38Hash(kit.Seed(), sc.Idx, "raw")
 	a, b := v38Region(tg, op, sc.Idx)
 	// initial cache state, produced by a third cache object (no in-process state is left behind)
 	if sc.Init != "absent" {
@@ -643,7 +742,7 @@ func (f *v38Fix) runConc(sc v38Scen, res *kit.Result) v38Rec {
 			case "M":
 				out, d = f.doOp(f.rB, tg, op, sc.Idx)
 			case "R":
-				out, d = f.doOp(f.rB, tg, "RawRange", 0)
+				out, d = f.doOp(f.rB, tg, "RawRange", rsalt)
 			}
 			mu.Lock()
 			rec.Loaders[j].Out, rec.Loaders[j].Detail = out, d
@@ -678,6 +777,8 @@ func (f *v38Fix) runConc(sc v38Scen, res *kit.Result) v38Rec {
 			ok = release(true, "go")
 		case "fail":
 			ok = release(false, "fail")
+		case "relpost":
+			ok = release(false, "gopost")
 		case "xrm":
 			if p := v38CachedPath(base, tg); p != "" {
 				_ = os.Remove(p)
